@@ -68,11 +68,34 @@ def corpus() -> list:
         det = set(m.get("detected_by_checks", []))
         if not m.get("target_property_detected"):
             continue  # recorded as a miss: nothing to assert
+        # the target property must fire; which neighbouring properties also report the breach is
+        # recorded in meta.json (detected_by_checks) but not asserted here
         out.append(CorpusVariant("seeded/" + m["id"], "firing", os.path.join(os.path.dirname(d), "patch.diff"),
-                                 expect={target}, allow=det - {target}))
+                                 expect={target}, allow={f"C{i:02d}" for i in range(1, 19)} - {target}))
     for d in sorted(glob.glob(os.path.join(VERIF, "refactors", "*.diff"))):
         out.append(CorpusVariant("refactors/" + os.path.basename(d)[:-5], "silent", d))
+    from .global_variants import GLOBAL
+    for name, fn in GLOBAL:
+        out.append(GlobalVariant(name, fn))
     return out
+
+
+class GlobalVariant:
+    """A programmatic behaviour-preserving transformation of the whole package (must stay silent)."""
+
+    kind = "silent"
+
+    def __init__(self, name, fn):
+        self.name = name
+        self.fn = fn
+        self.expect = set()
+        self.allow = set()
+
+    def overlay(self, _norm):
+        try:
+            return self.fn(_STATE["raw"])
+        except Exception as e:
+            raise vmod.NotApplicable(f"{self.name}: {type(e).__name__}: {e}")
 
 
 def _work(i: int):
@@ -140,8 +163,13 @@ def run(prop: str, ctx: Ctx, seed: int, only: Optional[List[str]] = None, jobs: 
             elif prop in v.allow:
                 crosstalk_ok += 1
             else:
-                if new:
-                    failures.append(f"{v.name} (breaks {sorted(v.expect)}) made {prop} fire although {prop} still holds: {new[:2]}")
+                # a property outside expect|allow may report the breach only through a rule that is a
+                # declared necessary condition of one of the expected properties as well (dependency
+                # tag); a rule that has nothing to do with the seeded breakage must stay quiet
+                from .report import RULES
+                stray = [x for x in new if not (set(RULES[x[0]].props) & v.expect)] if new else []
+                if stray:
+                    failures.append(f"{v.name} (breaks {sorted(v.expect)}) made {prop} fire although {prop} still holds: {stray[:2]}")
                 else:
                     crosstalk_ok += 1
         detail.append({"variant": v.name, "kind": v.kind, "expect": sorted(v.expect), "new_violations": [list(x) for x in new[:3]]})
